@@ -174,7 +174,14 @@ func writeU(sb *strings.Builder, c rune) {
 
 func (r *renderer) intText(n int) string {
 	s := strconv.Itoa(n)
-	switch r.st.Pick("int", 8) {
+	switch r.st.Pick("int", 9) {
+	case 8:
+		if n == 0 {
+			return "-0" // zero with a minus sign is zero
+		}
+		if n > 0 {
+			return "+00" + s
+		}
 	case 5:
 		if n >= 0 {
 			return "+" + s
